@@ -29,7 +29,11 @@ package apk
 //@   on call (*apkSignature).VerifySignature(_, k, d) ret (h, e): sigsOK = sigsOK + ite(e == nil && k == publicKey, 1, 0)
 //@   on call (*merkleHasher).Finish(_, z, _) ret (ds, e): recomputed = ds
 //@   on call crypto/hmac.Equal(a, b) ret (r): cmpOK = cmpOK + ite(r && sameslice(a, digest.Value) && sameslice(b, recomputed[i]), 1, 0)
-//@   on call bytes.Equal(a, b) ret (r): leafEq = leafEq || (r && sameslice(a, cert.RawSubjectPublicKeyInfo) && sameslice(b, s.PublicKey))
+//@   ghost leafG *x509.Certificate = nil
+//@   on call bytes.Equal(a, b) ret (r): leafEq = leafEq || (r && sameslice(a, cert.RawSubjectPublicKeyInfo) && sameslice(b, s.PublicKey)); \
+//@        leafG = ite(r && sameslice(a, cert.RawSubjectPublicKeyInfo) && sameslice(b, s.PublicKey), cert, leafG)
+//@   loop 4 sig "for _, cert := range certs" invariant -1 <= rangeindex && (leaf != nil ==> leafEq && leaf == leafG)
+//@   ensures @reported_certificate_carries_the_key_that_verified_the_signed_data ret1 == nil ==> leafEq && leafG != nil && ret0 != nil && ret0.X509Signature != nil && ret0.X509Signature.Signature.Certificate == leafG
 //@   loop 0 sig "for _, sig := range s.Signatures" invariant sigsOK == rangeindex + 1 && -1 <= rangeindex && rangeindex < len(s.Signatures)
 //@   loop 3 sig "for i, digest := range signedData.Digests" invariant cmpOK == rangeindex + 1 && -1 <= rangeindex && rangeindex < len(signedData.Digests)
 //@   ensures @every_v2_signature_value_verified ret1 == nil ==> len(s.Signatures) >= 1 && sigsOK == len(s.Signatures)
